@@ -284,3 +284,9 @@ func CheckSharing(pc *PathCtx) {
 		}
 	}
 }
+
+// CheckValueAndSharing: value obligations (C02/C12) and sharing obligations (C04) on the same path.
+func CheckValueAndSharing(pc *PathCtx) {
+	CheckValue(pc)
+	CheckSharing(pc)
+}
